@@ -45,6 +45,8 @@ type BE struct {
 	stablePtrFields bool
 	// inferred preconditions of private helpers (bounds2.go inferPre)
 	inferred map[*ssa.Function][]inferredPre
+	// inferred size postconditions of private helpers (bounds4.go inferPost)
+	inferredPost map[*ssa.Function]*Contract
 }
 
 func newBE(c *Ctx) *BE {
@@ -368,12 +370,12 @@ func (e *BE) offOf(v ssa.Value) (Lin, ssa.Value) {
 			}
 		}
 	case *ssa.Extract:
-		if call, ok := x.Tuple.(*ssa.Call); ok && len(call.Call.Args) > 0 && bytesLike(call.Call.Args[0].Type()) && call.Call.StaticCallee() != nil {
+		if call, ok := x.Tuple.(*ssa.Call); ok && len(call.Call.Args) > 0 && bytesLike(call.Call.Args[0].Type()) && e.c.calleeOf(&call.Call) != nil {
 			a, base := e.offOf(call.Call.Args[0])
 			return a.add(linVar(e.id(vkey{v, "", 'o'}))), base
 		}
 	case *ssa.Call:
-		if len(x.Call.Args) > 0 && bytesLike(x.Call.Args[0].Type()) && x.Call.StaticCallee() != nil {
+		if len(x.Call.Args) > 0 && bytesLike(x.Call.Args[0].Type()) && e.c.calleeOf(&x.Call) != nil {
 			a, base := e.offOf(x.Call.Args[0])
 			return a.add(linVar(e.id(vkey{v, "", 'o'}))), base
 		}
